@@ -58,18 +58,29 @@ func (t *BaseTraveler) Copy() Traveler {
 		Signal: t.Signal,
 	}
 	for k, v := range t.Marks {
-		o.Marks[k] = &DataElement{
-			ID:    v.ID,
-			Label: v.Label,
-			From:  v.From, To: v.To,
-			Data:   copy.DeepCopy(v.Data).(map[string]interface{}),
-			Loaded: v.Loaded,
-		}
+		o.Marks[k] = copyElement(v)
 	}
 	for i := range t.Path {
 		o.Path[i] = t.Path[i]
 	}
-	o.Current = t.Current
+	o.Current = copyElement(t.Current)
+	return &o
+}
+
+// copyElement returns a private copy of an element (nil for a null element)
+func copyElement(v *DataElement) *DataElement {
+	if v == nil {
+		return nil
+	}
+	o := DataElement{
+		ID:    v.ID,
+		Label: v.Label,
+		From:  v.From, To: v.To,
+		Loaded: v.Loaded,
+	}
+	if v.Data != nil {
+		o.Data = copy.DeepCopy(v.Data).(map[string]interface{})
+	}
 	return &o
 }
 
